@@ -69,6 +69,8 @@ type interpreter struct {
 	steps      int64
 	writeClock int64 // incremented on every heap write / model call
 
+	race *raceState // happens-before bookkeeping (cfg.Races)
+
 	host map[string]interface{} // scratch for native models
 	hostWG sync.WaitGroup
 	traceback []string
@@ -323,6 +325,9 @@ func visitInstr(fr *frame, instr ssa.Instruction) continuation {
 		fr.env[instr] = makeMap(instr.Type().Underlying().(*types.Map).Key(), 0)
 
 	case *ssa.Range:
+		if m, ok := fr.get(instr.X).(*omap); ok {
+			i.raceObj(fr, m, false, instr.Pos())
+		}
 		fr.env[instr] = rangeIter(fr.get(instr.X), instr.X.Type())
 
 	case *ssa.Next:
@@ -345,6 +350,9 @@ func visitInstr(fr *frame, instr ssa.Instruction) continuation {
 		fr.env[instr] = i.indexVal(fr, instr, fr.get(instr.X), fr.get(instr.Index))
 
 	case *ssa.Lookup:
+		if m, ok := fr.get(instr.X).(*omap); ok {
+			i.raceObj(fr, m, false, instr.Pos())
+		}
 		fr.env[instr] = i.lookupOp(fr, instr, fr.get(instr.X), fr.get(instr.Index))
 
 	case *ssa.MapUpdate:
@@ -352,6 +360,7 @@ func visitInstr(fr *frame, instr ssa.Instruction) continuation {
 		i.writeClock++
 		switch m := m.(type) {
 		case *omap:
+			i.raceObj(fr, m, true, instr.Pos())
 			m.insert(fr.get(instr.Key), fr.get(instr.Value))
 		default:
 			panic(engineError{fmt.Sprintf("illegal map type: %T", m)})
